@@ -613,7 +613,7 @@ let parse_ccall (toks : string list) (orphans : bytes list) : ccall =
   | ["abort"; k] -> KAbort (key_of k, [])
   | ["remove"; k] -> KRemove (key_of k)
   | ["remove_range"; a; b] -> KRemoveRange (parse_bound a, parse_bound b)
-  | ["get"; k] -> KGet (key_of k)
+  | ["get"; k] | ["reader"; k] | ["range"; k] -> KGet (key_of k)      (* three entry points, one read path *)
   | ["size"; k] -> KGetSize (key_of k)
   | ["checkpoint"] -> KCheckpoint
   | ["delorphans"] -> KDelOrphans orphans
